@@ -496,7 +496,8 @@ class ObjectType(Type):
         self.__initialize__()
 
         if value is None:
-            return None
+            # (optional parameters are handled before validating the value)
+            raise ValueError(f"None is not a valid value for {self}")
 
         if not isinstance(value, Config):
             raise ValueError(f"{value} is not an experimaestro type or task")
